@@ -13,7 +13,7 @@ EVID = os.path.join(VERIF, "evidence")
 NCPU = 16
 
 PANIC, ERR = -999, -998
-ALL_FAMILIES = ["countmin", "hashes", "bloom", "freq", "theta", "hll", "cpc", "tdigest"]
+ALL_FAMILIES = ["countmin", "hashes", "bloom", "freq", "theta", "hll", "cpc", "tdigest", "bounds"]
 FORBIDDEN = re.compile(r"\b(Admitted|admit|Axiom|Axioms|Parameter|Parameters|Conjecture|Conjectures|"
                        r"Unset\s+Guard|bypass_check|Admit\s+Obligations|type-in-type|impredicative-set|"
                        r"Unset\s+Universe\s+Checking|Unset\s+Positivity)\b")
@@ -64,9 +64,15 @@ class BuildLock:
         fcntl.flock(self.f, fcntl.LOCK_EX)
         return self
 
+    def release(self):
+        """the builds are done and the executables staged in the property's work directory: let other checks build"""
+        if self.f is not None:
+            fcntl.flock(self.f, fcntl.LOCK_UN)
+            self.f.close()
+            self.f = None
+
     def __exit__(self, *a):
-        fcntl.flock(self.f, fcntl.LOCK_UN)
-        self.f.close()
+        self.release()
 
 
 def sh(cmd, cwd=None, timeout=None, env=None):
@@ -204,8 +210,24 @@ def harness_build(profiles=("debug", "release"), families=None):
     return True, "\n".join(logs)
 
 
-def harness_bin(profile):
+def harness_bin(profile, workdir=None):
+    if workdir:
+        staged = os.path.join(workdir, "harness-" + profile)
+        if os.path.exists(staged):
+            return staged
     return os.path.join(HARNESS, "target", profile, "verif-harness")
+
+
+def stage_harness(workdir, profiles):
+    """copies the freshly built harness executables into the property's work directory (run from there, so that a
+    concurrent check building the harness with other family features cannot replace them mid-run)"""
+    for p in profiles:
+        src = os.path.join(HARNESS, "target", p, "verif-harness")
+        if os.path.exists(src):
+            dst = os.path.join(workdir, "harness-" + p)
+            tmp = dst + ".tmp"
+            shutil.copy2(src, tmp)
+            os.replace(tmp, dst)
 
 
 def run_harness(family, cases, profile, workdir, name):
@@ -215,7 +237,7 @@ def run_harness(family, cases, profile, workdir, name):
     with open(cf, "w") as fh:
         for c in cases:
             fh.write(c.to_text())
-    rc, out = sh([harness_bin(profile), family, cf, of], timeout=3000)
+    rc, out = sh([harness_bin(profile, workdir), family, cf, of], timeout=3000)
     if rc != 0:
         raise RuntimeError("harness failed (rc=%s): %s" % (rc, out[-2000:]))
     res = {}
